@@ -536,6 +536,76 @@ def e13(rep, src):
             rep.violation("E13", "FromRelationVisitor::%s@shared" % name, "left and right are de-duplicated against different sets %s: a CTE common to both is emitted twice" % sorted(used_sets), f.where())
 
 
+def e14(rep, src):
+    """Float constants are written with enough digits to denote the same f64."""
+    rep.rule(
+        "E14",
+        "every RelationToQueryTranslator::format_float_value (trait default and overrides) builds the literal only with `format!(\"{}\", v)` (Rust's shortest round-trip rendering) or with an exponent format "
+        "`{:.Ne}` whose precision N >= 16 (17 significant digits identify an f64); the text goes unchanged into ast::Value::Number",
+        floor=3,
+        necessary="a literal written with fewer digits (a human Display such as value::Float's `{:.4e}`, or `{:.15e}`) denotes another number: the rendered query filters on / returns other values and its re-parsed ranges differ",
+    )
+    fs = [f for f in src.find_fns(name="format_float_value") if f.file.startswith("dialect_translation/")]
+    for f in fs:
+        who = (f.self_ty or "").replace("trait ", "")
+        key = "%s::format_float_value" % who
+        ints = {}
+        for l in find(f.body, "let"):
+            if l["pat"]["k"] == "ident" and l.get("init") is not None:
+                ints[l["pat"]["name"]] = l["init"]
+        fmts = [m for m in find(f.body, "macro") if m.get("name", "").split("::")[-1] == "format"]
+        other = [show(c, 60) for c in find(f.body, "mcall") if c["m"] in ("to_string", "to_owned") and c["recv"]["k"] != "macro"]
+        bad, seen = [], []
+        for m in fmts:
+            a = m.get("args") or []
+            if not a or a[0]["k"] != "lit" or a[0].get("t") != "str":
+                bad.append("unreadable format!(%s)" % show(m, 60))
+                continue
+            fmt = a[0]["v"]
+            seen.append(fmt)
+            if fmt == "{}":
+                continue
+            mm = re.match(r"^\{:\.(\d+|\w+\$)e\}$", fmt)
+            if not mm:
+                bad.append("format string %r" % fmt)
+                continue
+            prec = mm.group(1)
+            val = None
+            if prec.isdigit():
+                val = int(prec)
+            else:
+                nm = prec[:-1]
+                e = None
+                for x in a[1:]:
+                    if x["k"] == "assign" and show(x["lhs"], 0) == nm:
+                        e = x["rhs"]
+                    elif x["k"] == "binary" and x.get("op") == "=" and show(x["lhs"], 0) == nm:
+                        e = x["rhs"]
+                if e is None and nm in ints:
+                    e = {"k": "path", "p": nm, "segs": [nm]}
+                hops = 0
+                while e is not None and e["k"] == "path" and e["p"] in ints and hops < 4:
+                    e = ints[e["p"]]
+                    hops += 1
+                while e is not None and e["k"] == "cast":
+                    e = e["e"]
+                if e is not None and e["k"] == "lit" and e.get("t") == "int":
+                    val = int(str(e["v"]).rstrip("usizei6432_") or 0)
+                elif e is not None and show(e, 0).replace(" ", "") in ("f64::DIGITS", "std::f64::DIGITS"):
+                    val = 15
+            if val is None:
+                bad.append("precision of %r not readable" % fmt)
+            elif val < 16:
+                bad.append("%r with precision %d: only %d significant digits" % (fmt, val, val + 1))
+        rep.instance("E14", key, {"translator": who, "formats": seen, "other_renderings": other})
+        if other:
+            rep.violation("E14", key, "the literal is produced by %s, not by an exact float format" % other, f.where())
+        if not fmts and not other:
+            rep.undecidable("E14", key, "no format! found", f.where())
+        for b in bad:
+            rep.violation("E14", key, "float literal rendered with %s" % b, f.where())
+
+
 def run(rep):
     rep.explanation = (
         "Table agreement and structural rules of the render / read round trip on the default (PostgreSQL) path. E3/E4 join the renderer table (variant -> translator method -> SQL spelling, read from the type-resolved MIR) "
@@ -552,5 +622,6 @@ def run(rep):
     e11(rep, src)
     e12(rep, src)
     e13(rep, src)
+    e14(rep, src)
     rep.assume("sqlparser 0.46 parses NAME(args) into ast::Expr::Function with that name, except the keyword functions listed in KEYWORD_FUNCTIONS")
     rep.assume("operators are rendered through same-named ast::BinaryOperator / UnaryOperator variants (read: function_match_constructor!)")
